@@ -364,7 +364,10 @@ def CState.apply (parent : Id → Id) (c : CState) (e : Obs) : Option CState :=
     | none => none
   | .irreversible =>
     match c.stack with
-    | h :: rest => if h.id == e.ref.id then some { stack := rest, final := some e.ref } else none
+    | h :: rest =>
+      if h.id == e.ref.id then some { stack := rest, final := some e.ref }
+      else if (c.final.map (·.id)) == some e.ref.id then some c        -- the block the chain rests on, announced (again) as final
+      else none
     | [] => match c.final with
       | none => some { c with final := some e.ref }                          -- the starting LIB announced first
       | some f => if f.id == e.ref.id then some c else none
